@@ -46,12 +46,12 @@ Lemma immstruct_safe : forall sv tb deser t v,
 Proof.
   intros sv tb deser t v Hg. unfold struct_gate_ok in Hg. apply andb_true_iff in Hg as [Hc Ha].
   unfold retains. rewrite Hc.
-  destruct (passes (t_setattr tb) true (top_pyty t v)) eqn:Hp; [|reflexivity].
+  destruct (passes (t_setattr tb) true (top_pyty deser t v)) eqn:Hp; [|reflexivity].
   apply (passes_atomic _ _ Ha) in Hp. cbn [andb]. generalize true at 2. revert v Hp.
-  induction t as [b| |o|l|o|b|l|o|l|t IH]; intros v Hp iimm; cbn [top_pyty] in Hp; try discriminate.
+  induction t as [b| |o|l|o|b|l|o|l|t IH]; intros v Hp iimm; cbn [top_pyty] in Hp; try discriminate;
+    try (destruct deser; try discriminate; destruct v; discriminate).
   - reflexivity.
   - cbn [pos]. rewrite (atomic_value_unreachable v Hp). apply andb_false_r.
-  - destruct v; discriminate.
   - cbn [pos]. apply IH. exact Hp.
 Qed.
 
@@ -79,13 +79,13 @@ Proof.
   apply (passes_atomic _ _ Ha) in Hp. congruence.
 Qed.
 
-Lemma mixin_blocks : forall tb gate y, mixin_ok tb = true -> gate = true -> (y = YList \/ y = YDeque \/ y = YDict) ->
+Lemma mixin_blocks : forall tb gate y, mixin_ok tb = true -> gate = true -> (y = YList \/ y = YDeque \/ y = YDict \/ y = YWrapper) ->
     wrapper_copies tb gate true y = true.
 Proof.
   intros tb gate y Hm Hg Hy. unfold mixin_ok in Hm.
-  apply andb_true_iff in Hm as [Hm Hd]. apply andb_true_iff in Hm as [Hm Hq]. apply andb_true_iff in Hm as [Hc Hl].
+  apply andb_true_iff in Hm as [Hm Hw]. apply andb_true_iff in Hm as [Hm Hd]. apply andb_true_iff in Hm as [Hm Hq]. apply andb_true_iff in Hm as [Hc Hl].
   unfold wrapper_copies, passes. rewrite Hg, Hc. cbn [andb negb orb].
-  destruct Hy as [ -> | [ -> | -> ] ]; [rewrite (proj1 (negb_true_iff _) Hl)|rewrite (proj1 (negb_true_iff _) Hq)|rewrite (proj1 (negb_true_iff _) Hd)]; reflexivity.
+  destruct Hy as [ -> | [ -> | [ -> | -> ] ] ]; [rewrite (proj1 (negb_true_iff _) Hl)|rewrite (proj1 (negb_true_iff _) Hq)|rewrite (proj1 (negb_true_iff _) Hd)|rewrite (proj1 (negb_true_iff _) Hw)]; reflexivity.
 Qed.
 
 Lemma immfield_safe : forall sv tb deser t v,
@@ -100,18 +100,21 @@ Proof.
   assert (HL : wrapper_copies tb (t_list_gate tb) true YList = true) by (apply mixin_blocks; auto).
   assert (HQ : wrapper_copies tb (t_deque_gate tb) true YDeque = true) by (apply mixin_blocks; auto).
   assert (HD : wrapper_copies tb (t_dict_gate tb) true YDict = true) by (apply mixin_blocks; auto).
+  assert (HLw : wrapper_copies tb (t_list_gate tb) true YWrapper = true) by (apply mixin_blocks; auto 6).
+  assert (HQw : wrapper_copies tb (t_deque_gate tb) true YWrapper = true) by (apply mixin_blocks; auto 6).
+  assert (HDw : wrapper_copies tb (t_dict_gate tb) true YWrapper = true) by (apply mixin_blocks; auto 6).
   revert v.
   induction t as [b| |o|l|o|b|l|o|l|t IH]; intro v; cbn [pos orb].
   - reflexivity.
   - destruct (fset_passes tb true (pyty_of v)) eqn:Hp; [|reflexivity]. cbn [andb].
     unfold fset_passes in Hp. cbn [negb orb] in Hp. rewrite Hc in Hp. apply (passes_atomic _ _ Ha) in Hp.
     apply atomic_value_unreachable. exact Hp.
-  - destruct o; destruct v; try reflexivity; rewrite Hwa, Hsl, HL; reflexivity.
+  - destruct o; destruct v; try reflexivity; destruct deser; cbn [pyty_of]; rewrite Hwa, Hsl, ?HL, ?HLw; reflexivity.
   - destruct v; try reflexivity; rewrite Hwa, Hsl, HL; reflexivity.
-  - destruct o; destruct v; try reflexivity; rewrite Hwm, Hsd, HD; reflexivity.
+  - destruct o; destruct v; try reflexivity; destruct deser; rewrite Hwm, Hsd, ?HD, ?HDw; reflexivity.
   - destruct b; [reflexivity|]. destruct v; try reflexivity; rewrite (fset_blocks tb YFrozenset Hc Ha eq_refl); reflexivity.
   - destruct v; try reflexivity; rewrite (fset_blocks tb YTuple Hc Ha eq_refl); reflexivity.
-  - destruct o; destruct v; try reflexivity; rewrite HQ; reflexivity.
+  - destruct o; destruct v; try reflexivity; destruct deser; rewrite ?HQ, ?HQw; reflexivity.
   - destruct deser; destruct v; try reflexivity; rewrite (fset_blocks tb YStruct Hc Ha eq_refl); reflexivity.
   - apply IH.
 Qed.
@@ -226,16 +229,16 @@ Proof.
   intro t. induction t using aty_ind'; intros deser v Ht Hv; cbn [typed_inside] in Ht; try discriminate.
   - reflexivity.
   - (* Array[i] *)
-    cbn [pos]. destruct v; try reflexivity. rewrite Hwa, Hsl. cbn [negb orb].
-    cbn [shape_ok] in Hv. rewrite forallb_forall in Hv.
-    rewrite (existsb_false _ _ xs); [apply andb_false_r|]. intros x Hx. apply IHt; auto.
+    cbn [pos]. destruct v; try reflexivity; rewrite Hwa, Hsl; cbn [negb orb];
+      cbn [shape_ok] in Hv; rewrite forallb_forall in Hv;
+      (rewrite (existsb_false _ _ xs); [apply andb_false_r|]; intros x Hx; apply IHt; auto).
   - (* positional Array *)
-    cbn [pos]. destruct v; try reflexivity. rewrite Hwa, Hsl. cbn [negb orb]. cbn [shape_ok] in Hv.
-    rewrite (zip_any_extra_false deser l H Ht xs Hv). apply andb_false_r.
+    cbn [pos]. destruct v; try reflexivity; rewrite Hwa, Hsl; cbn [negb orb]; cbn [shape_ok] in Hv;
+      rewrite (zip_any_extra_false deser l H Ht xs Hv); apply andb_false_r.
   - (* Map[str, i] *)
-    cbn [pos]. destruct v; try reflexivity. rewrite Hwm, Hsd. cbn [negb orb].
-    cbn [shape_ok] in Hv. rewrite forallb_forall in Hv.
-    rewrite (existsb_false _ _ xs); [apply andb_false_r|]. intros x Hx. apply IHt; auto.
+    cbn [pos]. destruct v; try reflexivity; rewrite Hwm, Hsd; cbn [negb orb];
+      cbn [shape_ok] in Hv; rewrite forallb_forall in Hv;
+      (rewrite (existsb_false _ _ xs); [apply andb_false_r|]; intros x Hx; apply IHt; auto).
   - (* Set *)
     destruct b; [reflexivity|discriminate].
   - (* Tuple *)
@@ -243,7 +246,7 @@ Proof.
       apply andb_true_iff in Hv as [_ Hv]; rewrite (zip_any_false deser l H Ht xs Hv); apply andb_false_r.
   - (* Deque[i] *)
     cbn [pos]. cbn [shape_ok] in Hv. destruct v; try reflexivity;
-      apply andb_true_iff in Hv as [_ Hv]; rewrite forallb_forall in Hv;
+      try (apply andb_true_iff in Hv as [_ Hv]); rewrite forallb_forall in Hv;
       (rewrite (existsb_false _ _ xs); [apply andb_false_r|]; intros x Hx; apply IHt; auto).
   - (* nested structure *)
     cbn [pos]. cbn [shape_ok] in Hv. destruct deser.
